@@ -951,8 +951,9 @@ def rule_i(ctx, ix):
             for t in (x.targets if isinstance(x, ast.Assign) else [x.target])) for x in ast.walk(g.node))
         flush = any(call_name(x) == 'clear_all_caches' for x in calls_in(g.node))
         delegating = any(call_name(x) == 'move_to' and unparse(x.func).startswith(g.self_name + '.state') for x in calls_in(g.node))
-        trivial = not [x for x in body_stmts(g.node) if not (isinstance(x, ast.Expr) and isinstance(x.value, ast.Constant))
-                       and not isinstance(x, (ast.Pass, ast.Raise, ast.Return))]
+        # nothing of the selection is touched: no call on anything reached through self
+        trivial = not any(isinstance(x, ast.Call) and isinstance(x.func, ast.Attribute) and unparse(x.func).startswith(g.self_name + '.')
+                          for x in ast.walk(g.node))
         ctx.ob(R, g.construct, 'move_to re-assigns a field (flushing through the setter), flushes itself, or only delegates to its parts',
                assigns_field or flush or trivial or delegating,
                detail='%s changes the selection without re-assigning a field and without clear_all_caches(): masks memoised before the '
